@@ -77,6 +77,13 @@ theorem copy_eq (s : PQ π) : Gen.PQ.copy H plt s = (.ok (PQ.copy s), s) := by
     induction pq <;> simp_all
   simp [Gen.PQ.copy, PQ.copy, Gen.PQ.init, this]
 
+/-- `sorted()`: a sorted copy, `self` untouched -/
+theorem sorted_eq (s : PQ π) : Gen.PQ.sorted H plt s = (.ok (PQ.sort plt (PQ.copy s)), s) := by
+  cases s with | mk seq pq =>
+  have : pq.map (fun e => (⟨e.pri, e.seq, e.obj⟩ : Entry π)) = pq := by
+    induction pq <;> simp_all
+  simp [Gen.PQ.sorted, sort_eq, PQ.copy, Gen.PQ.init, this]
+
 /-- `pop`: IndexError on an empty heap (state unchanged), else the popped entry's object -/
 theorem pop_eq (s : PQ π) :
     Gen.PQ.pop H plt s = match PQ.popEntry H plt s with
